@@ -168,6 +168,8 @@ def config(mon, rng, variant, tier):
             pk = p_round(t)
             blocks.append(pk)
             hi_sum += float(2**k) * pk[1]
+            if k > k0:  # rigorous lower bound for block [2^(k-1), 2^k): every term >= p(2^k) (monotone)
+                lo_sum += float(2 ** (k - 1)) * pk[0]
             # monotonicity: p non-increasing (needed for the dyadic bound)
             if pk[1] > prev * (1 + 1e-9) + 1e-300:
                 mon.count(f"inconclusive::schedule of {variant} not monotone: dyadic bound does not apply")
@@ -198,11 +200,12 @@ def config(mon, rng, variant, tier):
     if not decay_ok:
         mon.count("tail_decay_assumption_not_observed")
     if total_lo > delta * (1 + 1e-9):
-        mon.violation(f"schedule:invalid:{variant}", f"{variant}: K={K}, m={m}, delta={delta:.4g}: summed miss probability over rounds "
-                      f"t<{T0} alone is {total_lo:.4g} > delta", case)
+        mon.violation(f"schedule:invalid:{variant}", f"{variant}: K={K}, m={m}, delta={delta:.4g}: a rigorous LOWER bound on the summed miss probability "
+                      f"(exact for t<{T0}, then 2^(k-1)*p(2^k) per dyadic block up to 2^{KMAX}) is {total_lo:.4g} > delta "
+                      f"(exact part {K * sum(p[0] for p in exact):.4g})", case)
     elif total_hi > delta * (1 + 1e-9):
-        mon.violation(f"schedule:invalid-bound:{variant}", f"{variant}: K={K}, m={m}, delta={delta:.4g}: bounded-horizon sum {total_hi:.4g} > delta "
-                      f"(exact part {K * sum(p[1] for p in exact):.4g})", case)
+        # the upper bound alone does not refute validity
+        mon.count(f"inconclusive::{variant}: upper bound on the summed miss probability exceeds delta but the lower bound does not")
     # the algorithm's own modeling() passes the same scale to the same update
     try:
         if variant == "Auer":
